@@ -304,12 +304,21 @@ func oracle(h History, outs []string, resp []NC, buildPanic bool) (res *failure,
 				existing.patches = append(existing.patches, patchT{it.ip(), it.Content})
 				target = existing
 			default:
-				dup := false
+				dup, loose := false, false
 				for i, k := range kept {
 					rn, _ := respName(i)
 					if (rn == n || k.sub == n) && k.content == it.Content {
 						dup = true
 					}
+					if sibOrSelf(rn, n) && k.content == it.Content {
+						loose = true
+					}
+				}
+				if loose && !dup {
+					// the same content is stored under a name of the shape n_<k> that was not derived from n
+					// (it was submitted under that very name). Whether that makes the item a duplicate is not
+					// said by the statement (the code says yes when n_1 … n_k are all taken): no verdict.
+					return nil, -1
 				}
 				if dup {
 					dropping = true
@@ -761,7 +770,8 @@ func (g *gen) history(maxItems int) History {
 		}
 		contents = append(contents, sb.String())
 	}
-	patchTexts := []string{"P1", "P2", "P3", "", "import x\n", marker + "a)", r.Pick(contents)}
+	patchTexts := []string{"P1", "P2", "P3", "", "import x\n", marker + "a)", r.Pick(contents),
+		"<" + marker + r.Pick(points) + ")>", marker + r.Pick(points) + ")" + marker + r.Pick(points) + ")", "Q" + marker + r.Pick(pointPool) + ")"}
 	total := 1 + r.Intn(maxItems)
 	ncalls := 1 + r.Intn(4)
 	if ncalls > total {
@@ -830,7 +840,8 @@ func ambiguous(h History) bool {
 	return false
 }
 
-// noRenameShaped: the decidable hypothesis of Props.C12.names_unique_partial, on the Go side.
+// noRenameShaped: no submitted name equals <base>_<k><ext> of a submitted name (input statistics; these are
+// the histories on which the defect repaired by 54c21d0 could show).
 func noRenameShaped(h History) bool {
 	names := distinctStrings(h, func(it Item) *string { return it.Name })
 	n := h.nitems()
@@ -876,7 +887,7 @@ func (g *gen) emit(h History, class string) {
 		g.out.Count("feed-outcome:" + o)
 	}
 	nrs := noRenameShaped(h)
-	g.out.Count(fmt.Sprintf("NoRenameShaped:%v", nrs))
+	g.out.Count(fmt.Sprintf("names-of-renamed-shape-submitted:%v", !nrs))
 	renamed, nmark := 0, 0
 	subs := map[string]bool{}
 	for _, c := range h {
@@ -898,20 +909,20 @@ func (g *gen) emit(h History, class string) {
 		g.out.Sample(map[string]interface{}{"history": key(h), "outcomes": outs, "response": resp})
 	}
 	f, skipped := oracle(h, outs, resp, bp)
+	if skipped < 0 {
+		g.out.Count("oracle:no-verdict(same content under a submitted name of renamed shape)")
+	}
 	if skipped > 0 {
 		g.out.Count("oracle:content-check-skipped(non-word point)")
 	}
 	if f != nil {
 		g.out.Count("oracle-fail:" + f.class)
-		if !nrs && f.class == "dup-name" {
-			g.out.Count("oracle-fail:dup-name-with-rename-shaped-names")
-		}
 		if len(g.out.Oracle) < 24 && g.shrunk < 60 {
 			g.shrunk++
 			_, sf := shrink(h, f)
 			g.out.Fail(sf.OracleFail)
 		}
-	} else {
+	} else if skipped >= 0 {
 		g.out.Count("oracle:pass")
 	}
 }
@@ -934,9 +945,9 @@ func (g *gen) fixed() []History {
 		one(),
 		one(f("first", "first file"), f("second", "b\n"+m("2nd")+"\ne"), f("third", "t\n"+m("3rd")), up("3rd", "patch to third"), np("second", "2nd", "patch to second")),
 		one(f("second", "s"), f("second", "another"), f("second", "another"), f("third", "t")),
-		one(f("a_1.go", "X"), f("a.go", "Y"), f("a.go", "Z")), // DESIGN §7 candidate
+		one(f("a_1.go", "X"), f("a.go", "Y"), f("a.go", "Z")), // DESIGN §7 (repaired by 54c21d0)
 		one(f("a.go", "X"), f("a_1.go", "Y"), f("a.go", "Z")),
-		one(f("a.go", "X"), f("a_1.go", "X"), f("a.go", "Y")), // Props.C12.witness
+		one(f("a.go", "X"), f("a_1.go", "X"), f("a.go", "Y")), // Props.C12.oldWitness
 		one(f("a.go", "X"), f("a.go", "Y"), f("a_1.go", "Z"), f("a.go", "Z"), f("a_1.go", "Z")),
 		one(up("p", "P")),
 		one(f("", "X"), up("p", "P")),
@@ -950,10 +961,35 @@ func (g *gen) fixed() []History {
 	}
 }
 
-func run(dir string, seed uint64, tier string, part, parts int) error {
+// corpus reads the inputs of the replay files of past failures (replays/C12-*.json); they run first.
+func corpus(dir string) []History {
+	var out []History
+	files, _ := filepath.Glob(filepath.Join(dir, "C12-*.json"))
+	sort.Strings(files)
+	for _, fn := range files {
+		b, err := os.ReadFile(fn)
+		if err != nil {
+			continue
+		}
+		var doc struct {
+			Input History `json:"input"`
+		}
+		if json.Unmarshal(b, &doc) == nil && doc.Input != nil {
+			out = append(out, doc.Input)
+		}
+	}
+	return out
+}
+
+func run(dir string, seed uint64, tier string, part, parts int, corpusDir string) error {
 	g := &gen{r: vl.NewRng(seed*1000 + uint64(part)), out: vl.NewOut(dir)}
 	if part == 0 {
-		// the Lean negative witness (Props.C12.witness), replayed on the implementation
+		if corpusDir != "" {
+			for _, h := range corpus(corpusDir) {
+				g.emit(h, "corpus(past failures)")
+			}
+		}
+		// regression item (Props.C12.oldWitness): the history that answered two files named a_1.go before 54c21d0
 		_, wresp, _ := runImpl(History{{Src: "w", Items: []Item{{Name: sp("a.go"), Content: "X"}, {Name: sp("a_1.go"), Content: "X"}, {Name: sp("a.go"), Content: "Y"}}}})
 		g.out.Count("witness-names:" + strings.Join(respNames(wresp), ","))
 		for _, h := range g.fixed() {
@@ -1196,6 +1232,7 @@ func main() {
 	file := flag.String("file", "", "")
 	part := flag.Int("part", 0, "")
 	parts := flag.Int("parts", 1, "")
+	corpusDir := flag.String("corpus", "", "")
 	if len(os.Args) < 2 {
 		fmt.Fprintln(os.Stderr, "usage: c12 extract|run|replay [flags]")
 		os.Exit(3)
@@ -1206,7 +1243,7 @@ func main() {
 	case "extract":
 		err = extract(*repo)
 	case "run":
-		err = run(*dir, *seed, *tier, *part, *parts)
+		err = run(*dir, *seed, *tier, *part, *parts, *corpusDir)
 	case "replay":
 		err = replay(*file, *dir)
 	default:
